@@ -18,6 +18,7 @@ CONSTANTS
   SymSet = {TRUE, FALSE}
   WithB = TRUE
   AllOrders = TRUE
+  RestartIters = {0, 1, 2}
 VIEW mcview
 INVARIANT TypeOK
 INVARIANT NoError
